@@ -12,7 +12,10 @@ Coords == {<<"none", "none">>, <<"paris", "valid">>, <<"tokyo", "valid">>, <<"oc
            <<"antimeridian", "valid">>, <<"invalid_lat", "invalid">>, <<"invalid_nan", "invalid">>}
 Flags == {"omitted", "none", "true", "false"}
 Exprs == {<<"Mo-Fr 09:00-18:00 ; PH off \"ph\"", TRUE>>, <<"sunrise-sunset ; Su unknown", TRUE>>, <<"24/7", TRUE>>,
-          <<"2099Mo-Su 12:30-17:00", TRUE>>, <<"10:00-12:00/30", TRUE>>, <<"not an expression", FALSE>>, <<"Mo[6]", FALSE>>}
+          <<"2099Mo-Su 12:30-17:00", TRUE>>, <<"10:00-12:00/30", TRUE>>,
+          \* changes of state at wall-clock times that clocks skip (02:00-03:00 on the last Sunday of March in Paris, on the second
+          \* Sunday of March in New York) or repeat: a returned datetime then falls into the gap / fold of the zone it is given in
+          <<"02:30-05:00 ; Su 01:30-02:15,02:45-06:00", TRUE>>, <<"not an expression", FALSE>>, <<"Mo[6]", FALSE>>}
 
 \* the full table for the first expression, a reduced one (flags omitted / false) for the others
 Combos ==
